@@ -56,7 +56,7 @@ struct A {
 const PRIVS: &[P] = &[
     P { name: "p", path: "/a", q: &[] },
     P { name: "q", path: "/a/b", q: &[("k", "v")] },
-    P { name: "p", path: "/c", q: &[] }, // same name as PRIVS[0]
+    P { name: "p", path: "/c/", q: &[] }, // same name as PRIVS[0]; a rule path that ends in '/' (covers /c/x, not /c)
     P { name: "r", path: "/A", q: &[] }, // upper-case rule path
     P { name: "s", path: "/a", q: &[("K", "V")] }, // upper-case rule query
     P { name: "t", path: "/d", q: &[("k", "v"), ("flag", "")] },
@@ -116,6 +116,7 @@ const URLS: &[&str] = &[
     "/d?k=v",
     "http://168.63.129.16/a/x",
     "/ab",
+    "/c/x",
 ];
 
 #[derive(Clone)]
